@@ -40,7 +40,7 @@ TA = "_a._tcp.local."
 TB = "_b._tcp.local."
 MDNS = "224.0.0.251"
 D15_SIG = "C17:registration-completes-during-close"
-D16_SIG = "C17:overlapping-close-during-startup-raises"
+D17_SIG = "C17:overlapping-close-during-startup-raises"
 
 
 def gen_case(seed, idx):
@@ -559,7 +559,7 @@ def evaluate_early(case, obs):
     ok = [r for r in obs["close_results"] if r == "ok"]
     for k, r in enumerate(obs["close_results"]):
         if r == "NotRunningException":
-            bad.append((D16_SIG, "async_close() call #%d, made while the engine was still starting and overlapping another close, raised NotRunningException" % k))
+            bad.append((D17_SIG, "async_close() call #%d, made while the engine was still starting and overlapping another close, raised NotRunningException" % k))
         elif r not in ("ok", "ca"):
             bad.append(("C17:close-call-raises:" + r, "async_close() call #%d raised %s" % (k, r)))
     if ok:
